@@ -1,5 +1,6 @@
 CONSTANTS
   MaxDepth = 6
+  LongNs <- LongThorough
   L1 <- L1All
   L2 <- L2Thorough
   L3 <- L3Thorough
